@@ -96,6 +96,26 @@ func treeSet(depth int) []*RIDL {
 		}
 	}
 	rec(nil)
+	// large interfaces: many members of one shape (limits and counters that only many members reach)
+	big := func(n int, mk func(i int) RMember, tail ...RMember) {
+		var ms []RMember
+		for i := 0; i < n; i++ {
+			ms = append(ms, mk(i))
+		}
+		add("a.b", append(ms, tail...)...)
+	}
+	m0 := RMember{Kind: "method", Name: "Zz", In: TStruct(), Out: TStruct()}
+	big(40, func(i int) RMember {
+		return RMember{Kind: "method", Name: fmt.Sprintf("M%d", i), In: TStruct(), Out: TStruct()}
+	})
+	big(70, func(i int) RMember { return RMember{Kind: "error", Name: fmt.Sprintf("E%d", i), Type: TStruct()} }, m0)
+	big(70, func(i int) RMember { return RMember{Kind: "type", Name: fmt.Sprintf("T%d", i), Type: TStruct()} }, m0)
+	big(40, func(i int) RMember {
+		return RMember{Kind: "method", Name: fmt.Sprintf("M%d", i), In: TStruct(F("a", TStruct()), F("b", TMaybe(TStruct()))), Out: TStruct(F("c", TArr(TStruct())), F("d", TEnum("x", "y")))}
+	})
+	big(120, func(i int) RMember {
+		return RMember{Kind: "method", Name: fmt.Sprintf("M%d", i), In: TStruct(F("a", T("int"))), Out: TStruct(F("b", T("string")))}
+	})
 	treeCache[depth] = out
 	return out
 }
@@ -187,6 +207,9 @@ func runC05(tier string, r *Result) {
 			judge(map[int]string{last: f}, "final="+fillerName(f))
 		}
 		for gi, g := range gaps {
+			if len(d.Members) > 10 && gi >= 24 && gi < len(gaps)-12 {
+				continue // large interfaces: the layouts of the first and last members only
+			}
 			for _, f := range gapFillers {
 				if f == g.def || !fillerOK(g.class, f, g.prev, g.next) {
 					continue
@@ -424,6 +447,9 @@ func runC06(tier string, r *Result) {
 			cp := append([]piece(nil), ps...)
 			return render(mod(cp), nil)
 		}
+		if len(d.Members) > 10 {
+			tokIdx = append(append([]int(nil), tokIdx[:min(len(tokIdx), 30)]...), tokIdx[max(len(tokIdx)-12, 30):]...)
+		}
 		for k, i := range tokIdx {
 			// deletion
 			judge(renderWith(func(p []piece) []piece { p[i].tok = ""; return p }), "del")
@@ -502,7 +528,7 @@ func panicClass(p string) string {
 }
 
 func runC09(tier string, r *Result) {
-	// watchdog: the parser is linear, microseconds per input; no progress for 120 s is a hang
+	// watchdog: the parser is linear, microseconds per input; no progress for 60 s is a hang
 	done := make(chan struct{})
 	go func() {
 		last := int64(-1)
@@ -520,9 +546,9 @@ func runC09(tier string, r *Result) {
 				stuck = 0
 			}
 			last = cur
-			if stuck >= 12 {
+			if stuck >= 6 {
 				in, _ := c09Current.Load().(string)
-				r.violation("symptom=hang", "idl.New did not return within 120 s", in)
+				r.violation("symptom=hang", "idl.New did not return within 60 s", in)
 				b, _ := json.Marshal(r)
 				if *flagOut != "" {
 					writeFile(*flagOut, b)
@@ -655,6 +681,27 @@ func runC09(tier string, r *Result) {
 			"interface a.b\n" + strings.Repeat("error E\n", 8000) + "method F()->()",
 			strings.Repeat("\x00", 65536), strings.Repeat("\xff", 65536), strings.Repeat(" ", 65536), strings.Repeat("(", 65536),
 		}
+		// shared sub-structure: every layer refers to the next one several times (2^60 paths through 61 types);
+		// long reference chains; self and mutual references
+		dag := func(layers, fan int, wrap string) string {
+			var sb strings.Builder
+			sb.WriteString("interface a.b\n")
+			for i := 0; i < layers; i++ {
+				fmt.Fprintf(&sb, "type L%d (", i)
+				for f := 0; f < fan; f++ {
+					if f > 0 {
+						sb.WriteString(", ")
+					}
+					fmt.Fprintf(&sb, "f%d: %sL%d", f, wrap, i+1)
+				}
+				sb.WriteString(")\n")
+			}
+			fmt.Fprintf(&sb, "type L%d (value: int)\nmethod F(x: L0) -> (y: L0)\nerror E (z: L0)\n", layers)
+			return sb.String()
+		}
+		bombs = append(bombs, dag(60, 2, ""), dag(40, 3, ""), dag(60, 2, "[]"), dag(60, 2, "?"), dag(60, 2, "[string]"), dag(3000, 1, ""),
+			"interface a.b\ntype A (a: ?A, b: []A, c: [string]A)\nmethod F(x: A) -> ()",
+			"interface a.b\ntype A (b: ?B)\ntype B (a: []A, b: ?B)\nmethod F(x: A, y: B) -> ()")
 		for _, b := range bombs {
 			judge(b)
 		}
@@ -679,6 +726,6 @@ func init() {
 		var s string
 		json.Unmarshal(raw, &s)
 		return judgeC09(s)
-	}, rule: "bounded-exhaustive: every byte-prefix of every description of the tree set in 3 layouts (default, trailing comments at every gap, empty comments at every gap, ending inside a comment); every byte string of length <=4 (thorough <=6) over {#, LF, space, (, ), :, comma, a, A, ?, [, NUL, 0xff} behind 11 prefixes; token sequences <=3; 17 depth/size bombs at the 64 KiB bound; oracle: returns exactly one of tree/error under recover, a watchdog reports an input that makes no progress for 120 s",
+	}, rule: "bounded-exhaustive: every byte-prefix of every description of the tree set in 3 layouts (default, trailing comments at every gap, empty comments at every gap, ending inside a comment); every byte string of length <=4 (thorough <=6) over {#, LF, space, (, ), :, comma, a, A, ?, [, NUL, 0xff} behind 11 prefixes; token sequences <=3; 25 depth/size/sharing bombs (64 KiB nesting and runs, alias graphs with 2^60 paths, 3000-long reference chains, recursive aliases); oracle: returns exactly one of tree/error under recover, a watchdog reports an input that makes no progress for 120 s",
 		assume: []string{"not all byte strings up to 64 KiB: an alphabet containing every terminal of the grammar plus garbage bytes, and all truncations of a bounded-exhaustive positive set"}}
 }
